@@ -378,7 +378,7 @@ Proof.
     rewrite sm_prelude_table_map by exact Hok. rewrite assoc_str_map_params.
     destruct (assoc_str (prelude_table (alloc_tokens (s_alloc s1))) a); reflexivity.
   - unfold from_type_def_path.
-    destruct (forallb ident_lexb (a :: b :: l)); [|reflexivity].
+    destruct (forallb path_seg_okb (a :: b :: l)); [|reflexivity].
     cbn [rmap bind]. f_equal. symmetry.
     apply sm_rel_path_cons; [apply sm_lit_colon; exact Hok|exact Hpath].
 Qed.
